@@ -238,7 +238,7 @@ func (x *planExec) finish(op *Op, res *OpResult) {
 	exhausted := res.Rec != nil && res.Rec.FuelExhausted
 	if exhausted {
 		x.out.OpDigests = append(x.out.OpDigests, op.ID+"=fuel")
-		x.violate("C20", "no-answer-within-step-budget", op.ID, "C20|fuel|"+method+"|"+x.w.siteFunc(res.Rec.FuelSite),
+		x.violate("C20", "no-answer-within-step-budget", op.ID, "C20|fuel|"+method,
 			"request consumed the whole step budget (%d steps) without finishing: last site %s", DefaultFuel, x.w.SiteName(res.Rec.FuelSite))
 		return
 	}
@@ -264,22 +264,22 @@ func (x *planExec) finish(op *Op, res *OpResult) {
 	switch exp.Class {
 	case "ok":
 		if res.Class() != "ok" {
-			x.violate(prop, "expected-ok", op.ID, prop+"|expected-ok|"+method, "valid request was answered %s: %s", res.Class(), clip(errText(res), 300))
+			x.violate(prop, "expected-ok", op.ID, prop+"|expected-ok|"+exp.Name+"|"+method, "valid request was answered %s: %s", res.Class(), clip(errText(res), 300))
 		}
 	case "reject":
 		if res.Class() != "reject" {
-			x.violate(prop, "expected-reject", op.ID, prop+"|expected-reject|"+method+"|"+strings.Join(exp.Contains, ","), "request violating a documented constraint was answered %s: %s", res.Class(), clip(string(res.Body), 300))
+			x.violate(prop, "expected-reject", op.ID, prop+"|expected-reject|"+exp.Name+"|"+method, "request violating a documented constraint was answered %s: %s", res.Class(), clip(string(res.Body), 300))
 		}
 	case "any":
 		if c := res.Class(); c != "ok" && c != "reject" {
-			x.violate(prop, "expected-answer", op.ID, prop+"|expected-answer|"+c, "request was answered %s", c)
+			x.violate(prop, "expected-answer", op.ID, prop+"|expected-answer|"+exp.Name+"|"+c, "request was answered %s", c)
 		}
 	}
 	if len(exp.Contains) > 0 && res.Class() == "reject" {
 		msg := errText(res)
 		for _, c := range exp.Contains {
 			if !strings.Contains(msg, c) {
-				x.violate(prop, "error-message", op.ID, prop+"|error-message|"+c, "error message %q does not contain %q", clip(msg, 300), c)
+				x.violate(prop, "error-message", op.ID, prop+"|error-message|"+exp.Name+"|"+c, "error message %q does not contain %q", clip(msg, 300), c)
 			}
 		}
 	}
